@@ -65,6 +65,28 @@ def gen(rng, tier):
         out.append(case("star", n, False, 1, 4))
     for names in (["a", "a"], ["x", "y", "x", "z"], ["", ""], ["b", "b", "b"]):
         out.append(case("starnames", len(names), False, 1, 4, names))
+    # AllTopologies: number of names different from the requested number of tips (fewer, more, below the minimum)
+    for n, rooted, names in [(4, False, ["a", "b"]), (4, True, ["a"]), (4, False, ["a", "b", "c", "d", "e"]), (3, False, ["a"]),
+                             (5, True, ["a", "b", "c"]), (2, True, ["a", "b", "c"]), (6, False, ["a", "b", "c"]), (3, True, ["a", "b"]),
+                             (5, False, ["a", "b", "c", "d"]), (4, True, ["a", "b", "c", "d", "e", "f"])]:
+        out.append(case("topologies", n, rooted, 1, 0, names))
+    # StarTreeFromTree: source trees whose tips are not met in alphabetical order, more than 10 tips, names like the
+    # placeholders Tip<i>
+    gg = Gen(rng)
+    for i in range({"quick": 16, "thorough": 200, "search": 12}[tier]):
+        nt = rng.choice([3, 5, 8, 11, 12, 15, 25])
+        style = i % 4
+        if style == 0:
+            names = ["Tip%d" % j for j in rng.sample(range(nt), nt)]
+        elif style == 1:
+            names = ["Tip%d" % j for j in rng.sample(range(3 * nt), nt)]
+        else:
+            names = ["%s%d" % (rng.choice("zyxabc"), j) for j in range(nt)]
+        rng.shuffle(names)
+        t = gg.decorate(gg.shape(names, maxdeg=4, rootdeg=rng.choice([2, 3])), lenmode="all", supmode="none")
+        d0 = case("starfromtree", nt, False, 1, 4)
+        out.append({"sx": sx({"gen": Sym("starfromtree"), "n": nt, "rooted": False, "seed": 1, "nraw": 4, "tree": T(t)}),
+                    "meta": {"gen": "starfromtree", "n": nt, "rooted": False}})
     # several goroutines generating at once (shared state between calls shows up as corrupted trees)
     for which, n in [("uniform", 30), ("uniform", 200), ("yule", 40), ("caterpillar", 40), ("balanced", 5), ("star", 30), ("topologies", 5)]:
         for rooted in (False, True):
